@@ -785,10 +785,13 @@ func (w *response) WriteMsg(m *Msg) (err error) {
 	var data []byte
 	if w.tsigProvider != nil { // if no provider, dont check for the tsig (which is a longer check)
 		if t := m.IsTsig(); t != nil {
-			data, w.tsigRequestMAC, err = TsigGenerateWithProvider(m, w.tsigProvider, w.tsigRequestMAC, w.tsigTimersOnly)
+			var mac string
+			data, mac, err = TsigGenerateWithProvider(m, w.tsigProvider, w.tsigRequestMAC, w.tsigTimersOnly)
 			if err != nil {
+				// The request MAC stays: the handler may write another reply.
 				return err
 			}
+			w.tsigRequestMAC = mac
 			_, err = w.writer.Write(data)
 			return err
 		}
